@@ -1142,7 +1142,10 @@ func (m *NetworkMachine) Dispose() {
 
 	// run doDispose handlers
 	// TODO timeouts?
-	for _, fn := range m.disposeHandlers {
+	m.handlersMx.Lock()
+	disposeHandlers := slices.Clone(m.disposeHandlers)
+	m.handlersMx.Unlock()
+	for _, fn := range disposeHandlers {
 		fn(m.id, m.ctx)
 	}
 
@@ -1239,9 +1242,9 @@ var idRe = regexp.MustCompile(`[^a-zA-Z0-9-_]+`)
 
 // Handlers is [am.Api.Handlers].
 func (m *NetworkMachine) Handlers() []string {
-	// TODO lock, support id
-	// w.handlersLock.Lock()
-	// defer w.handlersLock.Unlock()
+	// TODO support id
+	m.handlersMx.Lock()
+	defer m.handlersMx.Unlock()
 
 	ret := make([]string, 0, len(m.handlers))
 	for _, h := range m.handlers {
@@ -1253,6 +1256,8 @@ func (m *NetworkMachine) Handlers() []string {
 
 // HandlersDetach is [am.Api.DetachHandlers].
 func (m *NetworkMachine) HandlersDetach(bindingId string) error {
+	m.handlersMx.Lock()
+	defer m.handlersMx.Unlock()
 	old := m.handlers
 
 	for _, h := range old {
@@ -1329,8 +1334,8 @@ func (m *NetworkMachine) DetachTracer(id string) error {
 
 // Tracers is [am.Api.Tracers].
 func (m *NetworkMachine) Tracers() []am.Tracer {
-	m.clockMx.Lock()
-	defer m.clockMx.Unlock()
+	m.tracersMx.RLock()
+	defer m.tracersMx.RUnlock()
 
 	return slices.Clone(m.tracers)
 }
